@@ -355,11 +355,17 @@ def _emission(chk, fi, fm, loop) -> None:
 
     repo = chk.repo
     # emission
-    for store, mp, cls, en, lst in (("base_phosphate_pairs", "bph_map", "BasePhosphate", "BPh", "base_phosphates"), ("base_ribose_pairs", "br_map", "BaseRibose", "BR", "base_riboses")):
-        d = astq.first_assign(fi.node, mp)
-        chk.expect(d is not None and norm(d) == f"merge_and_clean_bph_br(sorted({store}))", "sorted-emission", fi.where, f"{mp} is built from the sorted contact list", f"{mp} is not merge_and_clean_bph_br(sorted({store})): output order follows KD-tree order", K(fi, f"{mp}-sorted"), found=norm(d) if d is not None else None)
-        chk.robust |= {"bph-emission"}
-        c11e.check_bph_emission(chk, fi, mp, cls, en)
+    stores = {"bph": "base_phosphate_pairs", "br": "base_ribose_pairs"}
+    try:
+        from checks import c03e
+
+        pm = c03e.pairs_model(chk, fi, loop)
+        stores = {"bph": pm.bph or stores["bph"], "br": pm.br or stores["br"]}
+    except Exception:
+        pass
+    chk.robust |= {"bph-emission", "sorted-emission"}
+    for tag, cls, en in (("bph", "BasePhosphate", "BPh"), ("br", "BaseRibose", "BR")):
+        c11e.check_bph_emission(chk, fi, stores[tag], cls, en)
     # base pair emission
     ems = c03.find_emission(c11e.with_local_helpers_inlined(fi), "base_base_pairs")
     if len(ems) != 1 or not (isinstance(ems[0][1], ast.Tuple) and len(ems[0][1].elts) == 3 and all(isinstance(e, ast.Name) for e in ems[0][1].elts)):
@@ -458,16 +464,27 @@ def run(chk) -> None:
 
     fs = chk.repo.func(AN, "find_stackings")
     chk.note_function(fs)
+    if not any(isinstance(l, ast.For) and isinstance(l.iter, ast.Call) and astq.callee_name(l.iter) == "query_pairs" for l in fs.node.body):
+        from checks import c03e as _c03e
+
+        fs = _c03e.loopified(fs)
     try:
         from checks import c03e, c04, c04e
 
-        chk.robust |= {"stack-orientation"}
+        chk.robust |= {"stack-orientation", "sorted-emission"}
         sloop = c03.kd_loop(chk, fs)
-        c04e.check_orientation(chk, fs, sloop, c03e.build_sites(fs, sloop), Folder(chk.repo, AN).fold, c04.make_label_of(chk.repo))
+        c04e.check_orientation(chk, fs, sloop, c03e.build_sites(fs, sloop, chk.repo), Folder(chk.repo, AN).fold, c04.make_label_of(chk.repo))
     except (c03e.NotReadable, c03e.SX.TooManyPaths) as ex:
         chk.error("stack-orientation", fs.where, f"orientation of the recorded stackings not readable: {str(ex)[:120]}")
-    outs = [l for l in ast.walk(fs.node) if isinstance(l, (ast.For, ast.comprehension)) and norm(l.iter) == "sorted(pairs)"]
-    chk.expect(len(outs) == 1, "sorted-emission", fs.where, "stackings are emitted from sorted(pairs)", "stackings are not emitted by iterating sorted(pairs)", K(fs, "emission"))
+    outs = [l for l in ast.walk(fs.node) if isinstance(l, (ast.For, ast.comprehension)) and isinstance(l.iter, ast.Call) and astq.callee_name(l.iter) == "sorted" and len(l.iter.args) == 1 and isinstance(l.iter.args[0], ast.Name)]
+    plain = [l for l in outs if not l.iter.keywords]
+    keyed = [l for l in outs if any(k.arg == "key" for k in l.iter.keywords)]
+    if len(outs) == 1 and keyed:
+        from checks import c11e
+
+        c11e.check_sort_key(chk, fs, keyed[0].iter, "sorted-emission", "stackings")
+    else:
+        chk.expect(len(plain) == 1, "sorted-emission", fs.where, "stackings are emitted from sorted(<recorded triples>)", "stackings are not emitted by iterating sorted(<recorded triples>)", K(fs, "emission"))
     for rule, n in (("saenger-symmetric", 1), ("bph-class-table", 19), ("contact-skips", 4), ("sorted-emission", 4), ("bph-merge", 3), ("bph-one-class", 1), ("saenger-lookup", 1)):
         chk.floor(rule, n)
 
